@@ -33,15 +33,16 @@ TRUSTED = [
     "hand-written model Pencil_Model.v tied by exact differential testing on dyadic inputs (not a proof about the C++ text)",
     "Eigen oracles (DESIGN 1.3): selfadjointView<Upper>().rankUpdate writes only entries i<=j; "
     "DenseMatrix(selfadjointView<Upper>()) materialises both triangles; GeneralizedSelfAdjointEigenSolver reads "
-    "lower triangles and returns A V = B V diag(l), V^T B V = I, ascending l — assumed as `oracle_contract` "
-    "in the *_solution theorems, validated at run time by the G stream (tolerance 1e-8)",
+    "lower triangles and returns A V = B V diag(l), V^T B V = I, V (V^T B) = I, ascending l — assumed as "
+    "`oracle_contract` / `full_contract` in the *_solution and optimality theorems, validated at run time by the "
+    "G stream (tolerance 1e-8)",
     "IEEE rounding: models compute in exact rationals; exact stream uses dyadic inputs (every + - * and the "
     "division by N = 2^k is exact in binary64); the public-API stream is compared within stated tolerances",
     "the alignment / weight / Laplacian matrices M, D come from the library's own routines "
     "(linear_weight_matrix, tangent_weight_matrix, compute_laplacian: properties C08/C09), called by the harness",
-    "minimality of the selected eigenvalues (Ky Fan) is not proved: 'the d smallest' is the index statement "
-    "select_cols = columns 0..d-1 of an ascending decomposition + the run-time comparison of Rayleigh quotients "
-    "with a reference spectrum",
+    "minimality of the selected eigenvalues is proved (generalised Ky Fan, selected_columns_optimal) FROM the "
+    "oracle's full contract; that Eigen's answer meets the contract is validated per run (G stream) and the "
+    "Rayleigh quotients of the returned columns are compared with a reference spectrum (E stream)",
     "extraction (ExtrOcamlBasic only) + OCaml 4.13.1 + coq/extract/c10_driver.ml (parsing/printing)",
     "harness/c10.cpp (drivers, plain-loop reference arithmetic in command R); g++ ASan/UBSan/_GLIBCXX_ASSERTIONS",
 ]
@@ -402,7 +403,10 @@ def contract_residual(A, B, V, lam):
     R = [[AV[i][j] - BV[i][j] * lam[j] for j in range(D)] for i in range(D)]
     G = matmul(transpose(V), BV)
     E = [[G[i][j] - (1.0 if i == j else 0.0) for j in range(D)] for i in range(D)]
-    return fro(R) / (fro(A) * max(fro(V), 1e-300) + 1e-300), fro(E)
+    # third clause of `full_contract` (Pencil_Proof_KyFan.v): V is invertible with inverse V^T B
+    H = matmul(V, matmul(transpose(V), B))
+    E2 = [[H[i][j] - (1.0 if i == j else 0.0) for j in range(D)] for i in range(D)]
+    return fro(R) / (fro(A) * max(fro(V), 1e-300) + 1e-300), fro(E), fro(E2)
 
 
 def eval_g(ctx, exe1, cases, stats):
@@ -748,6 +752,7 @@ def run(ctx):
     rng = ctx.rng
     exe1, exe2, mexe = build_all(ctx)
     stats = new_stats()
+    stats["t_build_s"] = round(ctx.elapsed(), 1)
     hist = {"corpus": 0, "K": {}, "G": 0, "E": {}}
     quick = ctx.quick
     nk, ng, ne = (80, 24, 10) if quick else (600, 200, 80)
@@ -763,8 +768,11 @@ def run(ctx):
     if reads != "lower":
         ctx.unshown("oracle contract: the generalised solver no longer reads (only) the lower triangles "
                     "(probe votes %s); the model's `seen` = read_lower does not describe it" % stats["triangle_votes"])
+    stats["t_g_done_s"] = round(ctx.elapsed(), 1)
     n += eval_k(ctx, exe1, mexe, kc, stats, reads=reads or "lower")
+    stats["t_k_done_s"] = round(ctx.elapsed(), 1)
     n += eval_e(ctx, exe1, exe2, ec, stats, rng)
+    stats["t_e_done_s"] = round(ctx.elapsed(), 1)
     if ctx.is_unshown():
         # search phase: the same exact and public-API checks at a larger budget
         ctx.note("search phase entered: " + "; ".join(ctx._unshown)[:300])
